@@ -5,6 +5,7 @@ package qschema
 
 import (
 	"fmt"
+	"math"
 	"sort"
 	"time"
 
@@ -292,7 +293,15 @@ func (v TV) Go() any {
 	case "s":
 		return Str(v["v"].([]any))
 	case "n":
-		return num2(v["v"]) / 2
+		// (the model's +-1000000 stand for the ends of the int64 range; the mapping is monotone)
+		switch n := num2(v["v"]) / 2; {
+		case n >= 1000000:
+			return int64(math.MaxInt64) - (n - 1000000)
+		case n <= -1000000:
+			return int64(math.MinInt64) - (n + 1000000)
+		default:
+			return n
+		}
 	case "f":
 		return float64(num2(v["v"])) / 2
 	case "b":
